@@ -257,9 +257,7 @@ example : TwoColumns [[("cluster_id", WCell.int 0), ("group", .text "good")]] :=
   ⟨"cluster_id", "group", by decide, by simp [fieldsOf], by simp [fieldsOf]⟩
 -- one column in a .tsv file: the header holds no tab, the file is read as comma-separated
 example : (writeTsvFile true (renderW 4) [[("a", .text "x,y")]] none).bind (readTsvFile tryMakeNumber) =
-    some [[("a", .text "x"), ("a", .text "y")]] ∨
-    (writeTsvFile true (renderW 4) [[("a", .text "x,y")]] none).bind (readTsvFile tryMakeNumber) ≠
-    some [[("a", .text "x,y")]] := Or.inr (by decide)
+    some [[("a", .text "x")]] := by decide
 -- '%.4f': ties go to the even digit (0.03125 -> 0.0312, 0.09375 -> 0.0938), -0.0 keeps its sign
 example : fmtFixed 4 ⟨false, 1, -5⟩ = "0.0312".toList ∧ fmtFixed 4 ⟨false, 3, -5⟩ = "0.0938".toList ∧
     fmtFixed 4 ⟨true, 0, 0⟩ = "-0.0000".toList ∧ fmtFixed 4 ⟨false, 123, 0⟩ = "123.0000".toList := by decide
